@@ -219,3 +219,48 @@ func verifHarness_C10_isolation_after_other_connection_ended() {
 	}
 	verifAssert(false, "witness")
 }
+
+// the server core on a REAL nbio.Conn whose peer reads slowly (kernel model,
+// small receive window): the answer to a request that asks for the connection
+// to be closed must still arrive whole — closing must not discard what the
+// connection has accepted but not yet been able to send.
+func verifHarness_C10_answer_before_close_on_slow_peer() {
+	space := 8 + verifChoose("peer_window", 2)*200
+	s := nbio.VerifNewStream(space)
+	e := verifHTTPEngine()
+	n := 1 + verifChoose("body_len", 3)
+	body := verifBytes("body", n)
+	e.Handler = http.HandlerFunc(func(w http.ResponseWriter, r *http.Request) {
+		_, _ = w.Write(append([]byte(nil), body...))
+	})
+	p := NewParser(s.C, e, NewServerProcessor(), false, nil)
+	req := "GET /c HTTP/1.1\r\nHost: h\r\nConnection: close\r\n\r\n"
+	if verifChoose("http10", 2) == 1 {
+		req = "GET /c HTTP/1.0\r\nHost: h\r\n\r\n"
+	}
+	if err := p.Parse([]byte(req)); err != nil {
+		verifFail("well-formed-request-rejected", "slow-peer")
+		return
+	}
+	s.DrainAll(space)
+	w := s.Wire()
+	d := verifDecodeResponse(w)
+	if !d.ok || d.consumed != len(w) {
+		verifNote("decode: " + d.why)
+		verifNoteInt("wire_len", len(w))
+		verifNoteInt("peer_window", space)
+	}
+	if space >= 100 {
+		// with room for the whole answer nothing is queued at the close
+		verifAssertD(d.ok && d.consumed == len(w), "one-response-per-request-until-close", "whole-answer-fits-the-window")
+	}
+	verifAssertD(d.ok && d.consumed == len(w), "one-response-per-request-until-close", "whole-answer-before-close")
+	if d.ok {
+		verifAssertD(len(d.body) == n && verifEqBytes(d.body, body), "responses-in-request-order", "slow-peer")
+	}
+	verifAssertD(s.Closed(), "connection-persistence-follows-version-and-connection-header", "slow-peer")
+	if space < 100 {
+		verifReach("backlog-at-close")
+	}
+	verifAssert(false, "witness")
+}
